@@ -175,6 +175,9 @@ class Sx:
     def _c(self, o, op):
         if isinstance(o, np.ndarray) and o.ndim > 0:
             return NotImplemented
+        if isinstance(o, (float, np.floating)) and (o == float("inf") or o == float("-inf")):
+            # comparison of a (finite) symbolic real with +-infinity
+            return B(OPS[op](-1 if o > 0 else 1))
         try:
             on = lift(o)
         except TypeError:
